@@ -493,6 +493,14 @@ class RealObj:
         return "RealObj(%r)" % (self.obj,)
 
 
+class _Absent:
+    def __repr__(self):
+        return "ABSENT"
+
+
+ABSENT = _Absent()
+
+
 class Opaque:
     """Opaque value (formatted string, float from symbolic bytes, hexlify result...)."""
     __slots__ = ("what", "payload")
